@@ -700,7 +700,8 @@ static void emit_result(const char *scenario, const char *verdict)
     fprintf(f, ",\"seed\":%llu,\"verdict\":\"%s\",\"delay\":",
             (unsigned long long)vrt_seed, verdict);
     json_str(f, g_delay_name);
-    fprintf(f, ",\"nviol\":%d,\"violations\":[", g_nviol + g_nfindings);
+    fprintf(f, ",\"nviol\":%d,\"violations\":[",
+            __atomic_load_n(&g_nviol, __ATOMIC_RELAXED) + __atomic_load_n(&g_nfindings, __ATOMIC_RELAXED));
     for (int i = 0; i < g_nviol_stored; i++) {
         fprintf(f, "%s{\"key\":", i ? "," : "");
         json_str(f, g_viol[i].key);
@@ -715,7 +716,7 @@ static void emit_result(const char *scenario, const char *verdict)
     for (int i = 0; i < nc; i++) {
         fprintf(f, "%s", i ? "," : "");
         json_str(f, g_counters[i].name);
-        fprintf(f, ":%llu", (unsigned long long)g_counters[i].v);
+        fprintf(f, ":%llu", (unsigned long long)__atomic_load_n(&g_counters[i].v, __ATOMIC_RELAXED));
     }
     fprintf(f, "},\"cov\":{");
 #ifdef PMODELS_ARGOBOTS_VERIF
@@ -756,7 +757,7 @@ int vrt_finish(const char *scenario)
     vrt_supervisor_stop();
     const char *verdict = "held";
     int rc = 0;
-    if (g_nviol > 0 || g_nfindings > 0) {
+    if (__atomic_load_n(&g_nviol, __ATOMIC_RELAXED) > 0 || __atomic_load_n(&g_nfindings, __ATOMIC_RELAXED) > 0) {
         verdict = "violated";
         rc = 1;
     } else if (g_inconclusive[0]) {
